@@ -166,6 +166,16 @@ def run(repo: Repo) -> Result:
             n_same += 1
             res.sample({"pair": a.qual, "verdict": "identical normal forms", "nf_digest": sib.digest(ns)})
             continue
+        # the async member runs the sync one in an executor (or calls it through the class):
+        # after normalisation its body is `return <self|cls|Class>.<sync>(<its own parameters>)`
+        try:
+            na_tree = ast.parse(na).body[0]
+            if sib.is_delegation(na_tree, s.name, owners={"self", "cls"} | ({a.cls.name} if a.cls else set())):
+                n_deleg += 1
+                res.sample({"pair": a.qual, "verdict": "delegation form (after normalisation)"})
+                continue
+        except SyntaxError:
+            pass
         d = sib.diff(ns, na)
         # digest of the changed lines only, with the numbering of alpha-renamed locals blanked and
         # order ignored: an edit made identically to both twins (a shared helper, a new local
